@@ -4,6 +4,7 @@ import RPVerif.Lemmas.NodeList
 import RPVerif.Lemmas.SchedRun
 import RPVerif.Lemmas.JsrunSched
 import RPVerif.Lemmas.JsrunMem
+import RPVerif.Lemmas.JsrunTotal
 
 /-!
 # C01 — Pilot resources are never oversubscribed
@@ -377,6 +378,13 @@ theorem C01_jsrun_lfs_mem (cfg : JCfg) (nodes : List Sched.NodeSt) (ops : List J
     (hidx : (nodes.map (·.index)).Nodup) (h0 : ∀ n ∈ nodes, 0 ≤ n.lfs ∧ 0 ≤ n.mem) :
     ∀ n ∈ (jrun cfg { nodes := nodes } ops).nodes, 0 ≤ n.lfs ∧ 0 ≤ n.mem :=
   jrun_nonneg cfg _ ops (init_inv nodes hidx) h0
+
+open RPVerif.JsrunSched in
+/-- `_find_resources` of the JSRUN scheduler never raises: the loops that pick free cores and GPUs do not run
+    off the node, because the number of sets dug out is bounded by what the node has free -/
+theorem C01_jsrun_find_total (n : Sched.NodeSt) (nSlots rps cps gps lfs mem : Nat) (part : Bool) :
+    ∃ r, findJ n nSlots rps cps gps lfs mem part = .ok r :=
+  findJ_total n nSlots rps cps gps lfs mem part
 
 /-- tests: 5 ranks of half a GPU are cut into one set of 5 ranks owning 3 GPUs; 4 ranks of a quarter GPU
     into one set owning one GPU; and a two-node history in which the second task cannot take what the
